@@ -293,8 +293,13 @@ def oracle(sc, res):
 BUILTIN_DISPLAY = {"success-output": "never", "failure-output": "immediate"}   # default-config.toml
 
 
-def otest(bin_, name, passes):
-    return dict(bin=bin_, name=name, passes=passes, marker=f"MARKER<{name.upper()}:{'ok' if passes else 'bad'}>")
+def otest(bin_, name, passes, flaky=False):
+    """flaky: the first attempt fails (printing marker_first), the second passes (printing marker); the run then
+    has retries = 1 and the failed attempt's output follows failure-output like any failure's"""
+    d = dict(bin=bin_, name=name, passes=passes, marker=f"MARKER<{name.upper()}:{'ok' if passes else 'bad'}>")
+    if flaky:
+        d.update(flaky=True, passes=True, marker_first=f"MARKER<{name.upper()}:first-attempt-bad>")
+    return d
 
 
 def oscen(name, tests, selected=None, default=None, ov_selected=(), ov_default=(), cli=None, env=None):
@@ -329,12 +334,24 @@ def directed_output():
                       otest("beta::t2", "o3_pass_hidden", True)],
                      selected={F: "immediate", S: "never"}, ov_default=[("o3_pass_shown", {S: "immediate"})],
                      cli={F: "never"}, env={F: "immediate-final"}))
+    # a failed attempt that is retried: its output follows failure-output from the command line / the
+    # environment too (the configured values are decoys), the passing attempt's follows success-output
+    out.append(oscen("output-retried-attempt-forced-never",
+                     [otest("alpha::t1", "o4_flaky", True, flaky=True), otest("alpha::t2", "o4_flaky_ov", True, flaky=True),
+                      otest("beta::t1", "o4_pass", True)],
+                     selected={F: "immediate", S: "never"}, ov_selected=[("o4_flaky_ov", {F: "immediate-final"})],
+                     cli={F: "never"}))
+    out.append(oscen("output-retried-attempt-forced-immediate",
+                     [otest("alpha::t1", "o5_flaky", True, flaky=True), otest("beta::t1", "o5_flaky_ov", True, flaky=True)],
+                     selected={F: "never", S: "never"}, ov_selected=[("o5_flaky_ov", {F: "never"})],
+                     env={F: "immediate"}))
     return out
 
 
 def config_toml_output(sc):
     kv = lambda d: [f'{k} = "{v}"' for k, v in d.items()]
-    lines = ["[profile.default]", "fail-fast = false", "retries = 0", f'test-threads = {sc["threads"]}'] + kv(sc["default"])
+    retries = 1 if any(t.get("flaky") for t in sc["tests"]) else 0
+    lines = ["[profile.default]", "fail-fast = false", f"retries = {retries}", f'test-threads = {sc["threads"]}'] + kv(sc["default"])
     for name, d in sc["ov_default"]:
         lines += ["[[profile.default.overrides]]", f"filter = 'test(={name})'"] + kv(d)
     lines += ["", f"[profile.{sc['profile']}]"] + kv(sc["selected"])
@@ -347,7 +364,10 @@ def run_output(rig, sc, timeout=60):
     bins = {}
     for t in sc["tests"]:
         beh = {"stdout": {"text": t["marker"] + "\n"}, "sleep": 0.02, "exit": 0 if t["passes"] else 1}
-        bins.setdefault(t["bin"], {"tests": {}})["tests"][t["name"]] = {"ignored": False, "attempts": [beh]}
+        atts = [beh]
+        if t.get("flaky"):
+            atts = [{"stdout": {"text": t["marker_first"] + "\n"}, "sleep": 0.02, "exit": 1}, beh]
+        bins.setdefault(t["bin"], {"tests": {}})["tests"][t["name"]] = {"ignored": False, "attempts": atts}
     args = ["--profile", sc["profile"]]
     for k, v in sc["cli"].items():
         args += ["--" + k, v]
@@ -360,8 +380,30 @@ def oracle_output(sc, res):
     if w:
         return w
     inv = e2e_general.invocations(res)
+    def resolve(t, setting):
+        if setting in sc["cli"]:
+            return sc["cli"][setting], "--" + setting
+        if setting in sc["env"]:
+            return sc["env"][setting], "NEXTEST_" + setting.upper().replace("-", "_")
+        for lst, what in ((sc["ov_selected"], "override"), (sc["ov_default"], "default-profile override")):
+            for n, d in lst:
+                if n == t["name"] and setting in d:
+                    return d[setting], what
+        if setting in sc["selected"]:
+            return sc["selected"][setting], "profile"
+        if setting in sc["default"]:
+            return sc["default"][setting], "default profile"
+        return BUILTIN_DISPLAY[setting], "built-in default"
     for t in sc["tests"]:
-        if len(inv.get((t["bin"], t["name"]), [])) != 1:
+        if t.get("flaky"):
+            if len(inv.get((t["bin"], t["name"]), [])) != 2:
+                return f"{t['name']}: expected two test processes (fail, then pass), the puppet log has {len(inv.get((t['bin'], t['name']), []))}"
+            val, src = resolve(t, "failure-output")
+            shown = t["marker_first"] in res["stderr"]
+            if shown != (val != "never"):
+                return (f"{t['name']}: the output of its failed first attempt is {'shown' if shown else 'not shown'} by nextest "
+                        f"although failure-output = {val} (from {src})")
+        elif len(inv.get((t["bin"], t["name"]), [])) != 1:
             return f"{t['name']}: expected exactly one test process, the puppet log has {len(inv.get((t['bin'], t['name']), []))}"
         setting = "success-output" if t["passes"] else "failure-output"
         # documented order: command line, environment, first matching override (selected profile's, then
